@@ -11,6 +11,7 @@ import os
 import random
 import re
 import shutil
+import subprocess
 import time
 import fnmatch
 from . import common, project
@@ -65,6 +66,7 @@ class Proj:
         self.submodule = False
         self.tok = 0             # bumped by comment edits
         self.files = {}          # initial tree (non-script files)
+        self.extra_scripts = []  # scripts written by a probe edit without touching the other scripts
 
     def scripts(self):
         s = ['build.bfg']
@@ -72,7 +74,7 @@ class Proj:
             s.append('lib/build.bfg')
         if self.options is not None:
             s.append('options.bfg')
-        return s
+        return s + [x for x in self.extra_scripts if x not in s]
 
     def script_texts(self):
         out = {}
@@ -460,24 +462,175 @@ def diff_build_files(regen, fresh):
     return hard, soft
 
 
-def run_make(build):
-    rc, _, out = project.make(build, ['Makefile'])
-    invoked = 'regenerate --lazy' in out
-    ran = 'regenerating build files' in out
-    return rc, out, invoked, ran
+def run_make(build, timeout=25):
+    """make Makefile (the backend's own regeneration step).  -> (rc, output, recipe invoked?, scripts re-run?, looped?)
+    looped: Make kept re-executing itself (each time running the recipe) until the timeout."""
+    e = common.impl_env()
+    try:
+        p = subprocess.run(['make', '--no-print-directory', 'Makefile'], cwd=build, env=e, capture_output=True, timeout=timeout)
+        out, rc, looped = (p.stdout + p.stderr).decode('utf-8', 'replace'), p.returncode, False
+    except subprocess.TimeoutExpired as ex:
+        out, rc, looped = ((ex.stdout or b'') + (ex.stderr or b'')).decode('utf-8', 'replace'), -1, True
+    return rc, out, 'regenerate --lazy' in out, 'regenerating build files' in out, looped
+
+
+# ----------------------------------------------------------------------------- abstraction of the real world for the model
+class Intern:
+    """path strings ('s:<below srcdir>' / 'b:<below builddir>') and filter keys -> numbers of the model"""
+
+    def __init__(self):
+        self.paths = {'b:Makefile': 0, 'b:Makefile.stamp': 1}
+        self.filters = {}
+        self.calls = {}       # filter json -> Call (every filter this history ever used)
+
+    def p(self, s):
+        return self.paths.setdefault(s, len(self.paths))
+
+    def f(self, call):
+        self.calls.setdefault(filter_json(call), call)
+        return self.filters.setdefault(call.key(), len(self.filters))
+
+    def name(self, n):
+        for k, v in self.paths.items():
+            if v == n:
+                return k
+        return '?%d' % n
+
+
+def parse_emitted(build, src):
+    """The regenerate rule as written in the Makefile on disk and the included depfile:
+    -> {'inputs': [..], 'outputs': [..], 'dirs': [..], 'primary': name, 'depfile_target': name|None}"""
+    mk = project.read(build, 'Makefile') or ''
+    lines = mk.split('\n')
+    out = {'inputs': [], 'outputs': ['b:Makefile'], 'dirs': [], 'primary': 'Makefile', 'depfile_target': None}
+    for i, l in enumerate(lines):
+        if l.startswith('\t') and l.strip().endswith('regenerate --lazy'):
+            tgt, _, deps = lines[i - 1].partition(':')
+            out['primary'] = tgt.strip()
+            out['inputs'] = ['s:' + d.replace("'", '')[len('$(srcdir)/'):] for d in deps.split()]
+            if tgt.strip() == 'Makefile.stamp':
+                for l2 in lines[:i]:
+                    if l2.endswith(': Makefile.stamp'):
+                        out['outputs'] = ['b:' + x for x in l2[:-len(': Makefile.stamp')].split()]
+            break
+    if 'include .bfg_find_deps' in lines:
+        pd = parse_find_deps(project.read(build, '.bfg_find_deps'))
+        if pd:
+            out['depfile_target'] = pd[0]
+            out['dirs'] = ['s:' + os.path.relpath(d, src) for d in project.read(build, '.bfg_find_deps').split('\n')[0]
+                           .partition(':')[2].split()]
+    return out
+
+
+def stat_ns(src, build, name):
+    full = os.path.join(src if name[0] == 's' else build, name[2:])
+    try:
+        return os.stat(full).st_mtime_ns
+    except OSError:
+        return None
+
+
+def abstract_world(proj, src, build, it, emitted, saved):
+    """-> (world, saved, emit) in the wire shape of StateRegenTable.v"""
+    calls = proj.ordered_calls()
+    for c in calls:
+        it.f(c)
+    tree = []
+    names = set(['b:Makefile', 'b:Makefile.stamp'])
+    for js, c in sorted(it.calls.items()):
+        trav, seen = ofind(src, c)
+        tree.append([it.f(c), [[it.p('s:' + p), k == INC] for p, k in trav], [it.p('s:' + d) for d in seen]])
+        names.update('s:' + d for d in seen)
+    inputs = ['s:' + x for x in proj.scripts()]
+    outs = ['b:pkgconfig/demo.pc', 'b:pkgconfig/demo-uninstalled.pc'] if proj.pkg else []
+    conf = [[it.p(x) for x in inputs], [it.p(x) for x in outs], [[it.f(c), c.cache, c.dist] for c in calls], 0]
+    names.update(inputs)
+    names.update(outs)
+    names.update(emitted['inputs'] + emitted['outputs'] + emitted['dirs'])
+    sv = []
+    if saved is not None:
+        names.update('s:' + x for x in saved['inputs'])
+        names.update('b:' + x for x in saved['outputs'])
+        cache = []
+        for js, found, extra in saved['cache']:
+            c = it.calls.get(js)
+            if c is None:
+                raise KeyError('saved cache holds a filter the harness did not generate: ' + js)
+            cache.append([it.f(c), [it.p('s:' + x) for x in found], [it.p('s:' + x) for x in extra]])
+        sv = [[[it.p('s:' + x) for x in saved['inputs']], [it.p('b:' + x) for x in saved['outputs']], cache]]
+    mt = []
+    for n in sorted(names):
+        t = stat_ns(src, build, n)
+        if t is not None:
+            mt.append([it.p(n), t])
+    emit = [[it.p(x) for x in emitted['inputs']], [it.p(x) for x in emitted['outputs']], [it.p(x) for x in emitted['dirs']]]
+    # the tree must also know the filters of the saved cache (already in it.calls)
+    return [tree, mt, conf], sv, emit
+
+
+def d_result(r):
+    return {'inputs': r[0], 'outputs': r[1], 'rets': r[2], 'dist': r[3],
+            'cache': [(e[0], e[1], e[2]) for e in r[4]], 'dirs': r[5]}
+
+
+def dist_of_makefile(text):
+    _, lists = split_dist(text or '')
+    return lists[0] if lists else None
+
+
+def observed_result(build, src, it):
+    """what the files written by a real run say: cache, watched dirs, dist list"""
+    sv = read_saved(build)
+    em = parse_emitted(build, src)
+    cache = None
+    if sv is not None:
+        cache = [(it.f(it.calls[js]), [it.p('s:' + x) for x in fo], [it.p('s:' + x) for x in ex]) for js, fo, ex in sv['cache']]
+    dist = dist_of_makefile(project.read(build, 'Makefile'))
+    return {'cache': cache, 'dirs': sorted(it.p(d) for d in em['dirs']), 'dist': dist,
+            'inputs': [it.p(x) for x in em['inputs']], 'outputs': [it.p(x) for x in em['outputs']],
+            'primary': em['primary'], 'depfile_target': em['depfile_target']}
+
+
+def compare_result(model, obs, it, what):
+    """model: d_result of the model; obs: observed_result. Returns list of disagreement strings."""
+    dis = []
+    if obs['cache'] is None:
+        if model['cache']:
+            dis.append('%s: no .bfg_find_cache although the model caches %r' % (what, model['cache']))
+    elif [tuple(map(lambda x: x if isinstance(x, int) else list(x), e)) for e in model['cache']] != \
+            [tuple(map(lambda x: x if isinstance(x, int) else list(x), e)) for e in obs['cache']]:
+        dis.append('%s: find cache: model %r, real %r' % (what, model['cache'], obs['cache']))
+    if sorted(model['dirs']) != obs['dirs']:
+        dis.append('%s: watched directories: model %r, real %r' % (
+            what, sorted(it.name(d) for d in model['dirs']), sorted(it.name(d) for d in obs['dirs'])))
+    if model['inputs'] != obs['inputs'] or model['outputs'] != obs['outputs']:
+        dis.append('%s: regenerate inputs/outputs: model %r -> %r, real %r -> %r' % (
+            what, model['inputs'], model['outputs'], obs['inputs'], obs['outputs']))
+    if obs['dist'] is not None:
+        mnames = [it.name(d)[2:] for d in model['dist']]
+        real = [x for x in obs['dist'] if x in set(mnames)]
+        if real != mnames:
+            dis.append('%s: dist list (files registered by the find calls, in order): model %r, real %r' % (what, mnames, real))
+    want_primary = 'Makefile.stamp' if len(obs['outputs']) > 1 else 'Makefile'
+    if obs['primary'] != want_primary or (obs['depfile_target'] not in (None, want_primary)):
+        dis.append('%s: recipe hangs off %r, depfile names %r, expected %r' % (what, obs['primary'], obs['depfile_target'], want_primary))
+    return dis
 
 
 # ----------------------------------------------------------------------------- one history
-def classify_failure(proj, ed, soft, hard, extra_interleaved):
-    cl = []
-    if not hard and 'dist-order' in soft:
-        cl.append('dist-order-after-cache-hit')
-    return tuple(cl)
+def uncached_state(proj, src):
+    return [(c.key(), ofind(src, c)[0]) for c in proj.ordered_calls() if not c.cache]
 
 
-def history(rep, rng, proj, nsteps, hid, forced_edits=()):
-    """Runs one history on the real tools. Returns number of failures."""
+def base_missing(proj, src):
+    return sorted(set(c.base for c in proj.ordered_calls() if c.cache and not os.path.isdir(os.path.join(src, c.base))))
+
+
+def history(rep, rng, proj, nsteps, hid, forced_edits=(), label='random'):
+    """Runs one history on the real tools and compares every step with the model. Returns number of failures."""
     bad = 0
+    it = Intern()
+    pending = []        # (step record, model calls) - the model is run once at the end of the history
     with project.Scratch('c08') as s:
         project.write_tree(s.src, proj.files)
         project.write_tree(s.src, proj.script_texts())
@@ -489,66 +642,236 @@ def history(rep, rng, proj, nsteps, hid, forced_edits=()):
             return 1
         trace = []
         # the first make after a configure: with several outputs the stamp does not exist yet
-        rc, out, invoked, ran = run_make(s.build)
+        rc, out, invoked, ran, _ = run_make(s.build)
         rep.count('first-make:%s' % ('invoked-skip' if invoked and not ran else 'invoked-ran' if ran else 'quiet'))
+        unc_at_run = uncached_state(proj, s.src)        # results of the untracked (cache=False) calls at the last full run
+        missing_at_run = base_missing(proj, s.src)      # search roots that did not exist at the last full run
+        stale_deps = False                              # a skip left .bfg_find_deps behind the walked directories
+        missing_kept = False                            # a skip left a removed directory in .bfg_find_deps
+        had_options = 'options.bfg' in proj.scripts()
         for step in range(nsteps):
             kind = forced_edits[step] if step < len(forced_edits) else None
             before_desc = proj.describe()
             time.sleep(0.01)
-            ed = apply_edit(rng, proj, s.src, hid * 100 + step, kind)
+            if isinstance(kind, dict):
+                ed = {k: v for k, v in kind.items() if k != 'apply'}
+                kind['apply'](proj, s.src)
+            else:
+                ed = apply_edit(rng, proj, s.src, hid * 100 + step, kind)
             pre = build_files(s.build)
             pre_mt = mtimes(s.build, list(pre))
-            rc1, out1, invoked, ran = run_make(s.build)
+            emitted = parse_emitted(s.build, s.src)
+            world, sv, emit = abstract_world(proj, s.src, s.build, it, emitted, read_saved(s.build))
+            missing_watched = [d for d in emitted['dirs'] if not os.path.isdir(os.path.join(s.src, d[2:]))]
+            rc1, out1, invoked, ran, looped = run_make(s.build)
             post = build_files(s.build)
             post_mt = mtimes(s.build, list(post))
+            obs = observed_result(s.build, s.src, it)
             decision = 'ran' if ran else 'skip' if invoked else 'quiet'
             # fresh configure of the same tree with the same configuration
             shutil.rmtree(fresh, ignore_errors=True)
             rcf, outf = project.configure(s.src, fresh)
             ref = build_files(fresh)
-            rc2, out2, invoked2, ran2 = run_make(s.build)
+            obs_fresh = observed_result(fresh, s.src, it) if rcf == 0 else None
+            rc2, out2, invoked2, ran2, looped2 = (run_make(s.build) if not looped else (-1, '', False, False, False))
             shutil.rmtree(fresh, ignore_errors=True)
             rep.count('edit:' + ed['kind'])
             rep.count('decision:' + decision)
-            rep.count('outputs:%s' % ('stamp' if before_desc['pkg'] else 'single'))
-            rep.case('%d|%s|%s|%s' % (hid, json.dumps(before_desc, sort_keys=True), ed['kind'], decision), invoked)
+            rep.count('outputs:%s' % ('stamp' if len(emitted['outputs']) > 1 else 'single'))
+            rep.case('%s|%d|%s|%s|%s' % (label, hid, json.dumps(before_desc, sort_keys=True), ed['kind'], decision), invoked)
             trace.append({'edit': ed, 'decision': decision})
-            replay = {'project': before_desc, 'files': proj.files, 'history': trace, 'hid': hid,
+            replay = {'project': before_desc, 'files': proj.files, 'history': list(trace), 'hid': hid, 'label': label,
                       'make_output': out1[-600:], 'second_make_output': out2[-300:]}
+            touched = sorted(it.p('b:' + n) for n in post if n in pre_mt and post_mt.get(n) is not None and post_mt[n] != pre_mt[n]
+                             and (n == 'Makefile' or n.startswith('pkgconfig/')))
+            pending.append({'replay': replay, 'decision': decision, 'obs': obs, 'obs_fresh': obs_fresh, 'touched': touched,
+                            'calls': [('regen.due', [True, emit, world]), ('regen.lazy', [True, world, sv]),
+                                      ('regen.fresh', [True, world])], 'rc1': rc1})
+            # ---- classification of the input (history so far) into the known-finding classes
+            classes = []
+            if ran:
+                unc_at_run = uncached_state(proj, s.src)
+                missing_at_run = base_missing(proj, s.src)
+                stale_deps = False
+                missing_kept = False
+                had_options = 'options.bfg' in proj.scripts()
+            if decision == 'skip' and obs_fresh is not None and obs['dirs'] != obs_fresh['dirs']:
+                stale_deps = True
+            if missing_watched and (decision == 'skip' or looped):
+                missing_kept = True
+            if missing_kept:
+                classes.append('skip-keeps-missing-watched-dir')
+            elif stale_deps:
+                classes.append('skip-keeps-stale-find-deps')
+            if [b for b in missing_at_run if os.path.isdir(os.path.join(s.src, b))]:
+                classes.append('missing-search-root-unwatched')
+            if 'options.bfg' in proj.scripts() and not had_options:
+                classes.append('new-options-file-untracked')
+            if looped:
+                rep.count('make-loops')
+                if rep.fail('make does not terminate after edit %r: it re-executes itself and runs the regeneration recipe again and '
+                            'again (%d times in %d s): %s' % (ed, out1.count('regenerate --lazy'), 25, out1[:200]), replay,
+                            classes=tuple(classes)):
+                    bad += 1
+                pending.pop()
+                break
             if rcf != 0:
-                # the edited tree does not configure at all (e.g. a removed directory that a script names): then make must
-                # fail too, visibly
+                # the edited tree does not configure at all (e.g. a script names a removed directory)
                 rep.count('fresh-configure-fails')
-                if rc1 == 0 and decision != 'quiet':
-                    pass
                 continue
             if rc1 != 0:
                 bad += 1
                 rep.fail('make Makefile failed (rc %d) after edit %r although a fresh configure succeeds: %s' % (rc1, ed, out1[-300:]),
-                         replay, classes=())
+                         replay, classes=tuple(classes))
                 continue
+            if not ran and uncached_state(proj, s.src) != unc_at_run:
+                # a cache=False search changed: documented as not tracked - outside the property's guarantee
+                rep.count('excluded:uncached-search-changed')
+                continue
+            # files a fresh configure does not write (left over from an earlier configuration) are not compared
+            left = [n for n in post if post[n] is not None and ref.get(n) is None]
+            for n in left:
+                rep.count('soft:leftover-' + n.split('/')[0])
+                post.pop(n)
+                ref.pop(n, None)
             hard, soft = diff_build_files(post, ref)
             for t in soft:
                 rep.count('soft:' + t)
-            if hard or soft:
+            if hard or 'dist-order' in soft:
                 what = ('after edit %r and the regeneration step (%s) the build files differ from a fresh configure: %s' % (
                     ed, decision, '; '.join(hard + ['Makefile: order of the dist file list' for t in soft if t == 'dist-order'])))
-                cl = classify_failure(proj, ed, soft, hard, None)
-                if hard or 'dist-order' in soft:
-                    if rep.fail(what, replay, classes=cl):
-                        bad += 1
+                cl = list(classes)
+                if not hard:
+                    cl.append('dist-order-after-cache-hit')
+                if rep.fail(what, replay, classes=tuple(cl)):
+                    bad += 1
             if invoked2:
-                bad += 1
-                rep.fail('a second make immediately after the regeneration step invoked bfg9000 again (edit %r, first decision %s): %s' % (
-                    ed, decision, out2[-300:]), replay, classes=())
+                if rep.fail('a second make immediately after the regeneration step invoked bfg9000 again (edit %r, first decision %s): %s' % (
+                        ed, decision, out2[-300:]), replay, classes=tuple(classes)):
+                    bad += 1
             if decision == 'skip':
-                # skip: contents unchanged, every output touched, cache file not rewritten
                 changed = [n for n in post if post[n] != pre.get(n)]
                 if changed:
                     bad += 1
                     rep.fail('regeneration was skipped but %r changed' % changed, replay)
             if len(trace) <= 2:
                 rep.sample({'project': before_desc['calls'][:2], 'edit': ed, 'decision': decision, 'soft': soft})
+    bad += model_tie(rep, it, pending)
+    return bad
+
+
+def model_tie(rep, it, pending):
+    """Runs the model on the abstract worlds recorded before each make and compares its predictions with what happened."""
+    calls = [c for p in pending for c in p['calls']]
+    if not calls:
+        return 0
+    raw = common.model_batch(calls)
+    if not getattr(rep, '_c08_vm', False):
+        rep._c08_vm = True
+        n, ok, detail = common.vm_crosscheck(calls, raw, limit=9)
+        rep.stage('vm_compute', rechecked=n, agrees=ok)
+        if not ok:
+            rep.fail('extraction glue: ' + detail, {'obligation': 'vm_compute == extracted model', 'detail': detail}, found_input=False)
+    bad = 0
+    for i, p in enumerate(pending):
+        due, lazy, fresh = raw[3 * i], raw[3 * i + 1], raw[3 * i + 2]
+        dis = []
+        m_due = common.d_bool(due)
+        real_inv = p['decision'] != 'quiet'
+        if m_due != real_inv:
+            dis.append('trigger: the mtime rule of the model says %s, GNU Make %s the regeneration recipe' % (
+                'out of date' if m_due else 'up to date', 'ran' if real_inv else 'did not run'))
+        if real_inv and p['rc1'] == 0:
+            tag = 'ran' if lazy[0] == 1 else 'skip'
+            if tag != p['decision']:
+                dis.append('decision: model %s, real %s' % (tag, p['decision']))
+            elif tag == 'ran':
+                dis += compare_result(d_result(lazy[1]), p['obs'], it, 'lazy run')
+            else:
+                if sorted(lazy[1]) != p['touched']:
+                    dis.append('skip: touched outputs: model %r, real %r' % (sorted(lazy[1]), p['touched']))
+        if p['obs_fresh'] is not None:
+            dis += compare_result(d_result(fresh), p['obs_fresh'], it, 'fresh configure')
+        rep.count('tie:steps')
+        rep.traces += 1
+        if dis:
+            bad += 1
+            r = dict(p['replay'])
+            r.update({'obligation': 'W:regen-model', 'disagreements': dis})
+            rep.fail('model and implementation disagree on a regeneration step: ' + ' | '.join(dis)[:600], r, found_input=False)
+    st = rep.stages.get('W:regen-model', {})
+    rep.stage('W:regen-model', steps=st.get('steps', 0) + len(pending), disagreements=st.get('disagreements', 0) + bad,
+              note='per step: regen.due vs GNU Make, regen.lazy vs the real lazy run (decision, cache, watched dirs, dist order, '
+                   'touched outputs), regen.fresh vs the real fresh configure')
+    return bad
+
+
+# ----------------------------------------------------------------------------- corner histories (run first in every tier)
+def _mk(files):
+    def f(proj, src):
+        project.write_tree(src, files)
+    return f
+
+
+def _rm(path):
+    def f(proj, src):
+        shutil.rmtree(os.path.join(src, path))
+    return f
+
+
+def _mkdir(path):
+    def f(proj, src):
+        os.makedirs(os.path.join(src, path))
+    return f
+
+
+def _new_options(proj, src):
+    proj.extra_scripts = ['options.bfg']
+    project.write_tree(src, {'options.bfg': "argument('level', default='1')\n"})
+
+
+def corner_histories():
+    """(label, project, forced edits) - the corner cases of the skip branch and of the watched-directory set"""
+    out = []
+    base_files = {'src/a.c': 'int a(void){return 1;}\n', 'src/a.h': '\n', 'src/sub/s.c': 'int s(void){return 1;}\n',
+                  'src/empty/notes.txt': 'n\n', 'README': 'r\n'}
+
+    def proj(calls, pkg=False):
+        p = Proj()
+        p.calls = calls
+        p.pkg = pkg
+        p.files = dict(base_files)
+        return p
+    for pkg in (False, True):
+        tag = '-stamp' if pkg else ''
+        # a directory appears without changing any result (skip), then a matching file appears inside it
+        out.append(('new-dir-then-file' + tag, proj([Call('find_files', 'src', True, 'c', extra='*.h')], pkg),
+                    [{'kind': 'add-dir', 'path': 'src/nd', 'apply': _mkdir('src/nd')},
+                     {'kind': 'add-file', 'path': 'src/nd/z.c', 'apply': _mk({'src/nd/z.c': 'int z;\n'})},
+                     {'kind': 'add-file', 'path': 'src/z2.c', 'apply': _mk({'src/z2.c': 'int z2;\n'})}]))
+        # a walked directory without results disappears (skip): is the step ever up to date again?
+        out.append(('remove-resultless-dir' + tag, proj([Call('find_files', 'src', True, 'c')], pkg),
+                    [{'kind': 'remove-dir', 'path': 'src/empty', 'apply': _rm('src/empty')}, 'noop']))
+    # the root of a search does not exist at configure time and appears later
+    out.append(('search-root-appears', proj([Call('find_files', 'src', False, 'c'), Call('find_files', 'gen', False, 'c', dist=True)]),
+                [{'kind': 'add-dir', 'path': 'gen', 'with': 'g.c', 'apply': _mk({'gen/g.c': 'int g;\n'})}, 'noop']))
+    # an options.bfg appears in a project that had none
+    out.append(('options-file-appears', proj([Call('find_files', 'src', False, 'c')]),
+                [{'kind': 'script-new-options', 'script': 'options.bfg', 'apply': _new_options}, 'noop']))
+    # extra files interleaved with included ones: order of the dist list after a run served from the cache
+    out.append(('extra-interleaved', proj([Call('find_files', 'src', True, 'c', extra='*.h')], True),
+                [{'kind': 'add-file', 'path': 'src/b.c', 'apply': _mk({'src/b.c': 'int b;\n', 'src/b.h': '\n'})},
+                 {'kind': 'remove-file', 'path': 'src/b.h', 'apply': lambda proj, src: os.remove(os.path.join(src, 'src/b.h'))},
+                 'script-comment']))
+    return out
+
+
+def stage_corners(rep, rng):
+    bad = 0
+    cs = corner_histories()
+    for i, (label, proj, edits) in enumerate(cs):
+        bad += history(rep, rng, proj, len(edits), 900 + i, forced_edits=edits, label=label)
+    rep.stage('system:corner-histories', histories=len(cs), failures_not_known=bad)
     return bad
 
 
@@ -565,6 +888,7 @@ def stage_system(rep, rng, nhist, nsteps):
 def run(rep):
     rng = random.Random(rep.seed)
     rep.proof_stage(coqchk=(rep.tier == 'thorough'))
+    stage_corners(rep, rng)
     if rep.tier == 'thorough':
         stage_system(rep, rng, 40, 8)
     else:
